@@ -3,6 +3,7 @@ C08 — Append preserves history (header re-serialisation part).
 -/
 import SevenZ.Lemmas.FilesInfo
 import SevenZ.Model.Assign
+import SevenZ.Lemmas.Assign
 namespace SevenZ.C08
 open SevenZ SevenZ.Impl
 
@@ -16,6 +17,18 @@ theorem reserialise_times (fuel n ne : Nat) (fi : FilesInfo) (slots : List (Slot
       readFileProps fuel n
         { fi with files := (fi.files.zip slots).map (fun (f, s) => setTime .m f (normSlot s)) } ne rest :=
   times_step fuel n ne fi slots hlen hn hv rest
+
+/-- Appending never alters, drops, reorders or re-assigns a member that was already there:
+    for EVERY base archive (any files, folders incl. folders without streams, sizes, digests)
+    and EVERY appended material (more file entries, more folders, more sub-streams) — as long
+    as both the base and the result are readable — the cursor gives the first members exactly
+    the folder, offset, size and digest it gave them in the base archive. -/
+theorem append_keeps_assignment (flags flags' : List Bool) (nums nums' sizes sizes' : List Nat)
+    (crcs crcs' : List (Option Nat)) (r r' : List Slot4)
+    (hbase : Impl.assign flags nums sizes crcs = some r)
+    (hnew : Impl.assign (flags ++ flags') (nums ++ nums') (sizes ++ sizes') (crcs ++ crcs') = some r') :
+    r'.take flags.length = r :=
+  assignGo_prefix nums sizes crcs nums' sizes' crcs' flags' flags 0 0 0 0 r hbase r' hnew
 
 /-- appending a folder never moves an earlier member: the cursor's assignment for the old
     members of a base archive is a prefix of the assignment after one more folder with one
